@@ -850,11 +850,15 @@ func (h *hist) opGenesis() {
 // event; skyway re-issues the open batches for the id the event carries.
 func (h *hist) opStaleActivate() {
 	id := fmt.Sprintf("stale-%d-%d", h.scid, len(h.staleTids))
-	ver := h.scid
+	cur, err := h.in.EvmKeeper.GetChainInfo(h.ctx, chainName)
+	if err != nil {
+		h.t.Fatal(err)
+	}
+	ver := cur.ActiveSmartContractID // not above the active one: the activation is a no-op for evm
 	if ver > 0 && h.r.Intn(2) == 0 {
 		ver--
 	}
-	err := h.in.EvmKeeper.ActivateChainReferenceID(h.ctx, chainName, &evmtypes.SmartContract{Id: ver}, "0xdef", []byte(id))
+	err = h.in.EvmKeeper.ActivateChainReferenceID(h.ctx, chainName, &evmtypes.SmartContract{Id: ver}, "0xdef", []byte(id))
 	if err != nil {
 		h.t.Fatalf("stale ActivateChainReferenceID: %v", err)
 	}
